@@ -156,6 +156,10 @@ def generate(rng, tier, i):
             case = GEN[fam](rng, tier, j * 7 + attempt, **kw)
             if _n_items(case) >= 4 and (ok is None or ok(case)):
                 break
+        if fam == "subset" and str(case.get("mode", "")).startswith("rand") and case.get("seed") is None:
+            # an unseeded random selection legitimately differs between invocations: the worker twins
+            # can only be compared when the selection is seeded
+            case["seed"] = "7"
         case["class"] = "multi-worker"
         case["mw"] = lab
         case["target"] = cmd
